@@ -77,7 +77,7 @@ use std::sync::{Arc, RwLock};
 pub const DEF: PropDef = PropDef {
     id: "C12",
     level: "model_checking",
-    rule: "per configuration (rule set in {copy, join, chain, trans, transdag, static, xwin, wrec, tri [3-premise rules over w1,w2,w1 and w1,w2,static], twohead [one rule with two conclusions, one of them INTO window w2, plus a join reading it], const [constants in premise and conclusion, a fully ground premise], loop [repeated variable w1:p(x,x), 2-cycle join]} x {IRIs prefix-free, alpha1,alpha2 in {2,3}, static graph empty/filled, eviction exact/one tick late: 16} + {prefix-free, alpha (1,4)/(4,1), static filled, eviction exact/late: 4} + {prefix-NESTED component IRIs http://w/ http://w/x/ http://w/sg/ http://w/x/out/, alpha (2,3)/(3,2), static filled, eviction exact/late: 4} = 12 x 24 = 288 configurations, each an independent search) histories of ops arrive(w,t) [2 windows x 3 triples (cycle a-p-b b-p-c c-p-a; a-p-b b-p-c a-p-c for transdag/wrec; a-p-a a-p-b b-p-a for twohead/loop); a listing keeps the latest arrival time], tick [now+=1, listings with time+alpha(+1 if late)<=now dropped], evaluate [real incremental_sds_plus with the SdsWithExpiry carried from the previous evaluate; only at a strictly later time than the previous evaluation], flush [max(alpha)+1(+1 if late) ticks; de-duplicated searches only]: (1) BFS from the empty history at start time 0 up to depth 6 (quick) / 9 (thorough; 8 for the 160 configurations that are not among the first 8 rule sets x prefix-free x alpha in {2,3}), states de-duplicated on the full state relative to now (listing ages, complete carried map with expiry-now, evaluate-enabled); (2) plain tree search without any de-duplication from the empty history to depth 4 / 6 (5 for those 160); (3) 8 seeded prefixes per configuration (1-3 evaluations each: carried-alive, evaluated renewal, full windows, renewal then total expiry, staggered ages, three incremental evaluations, re-derivation after total expiry, partial renewal) executed at start time 1000 or 2^40 and continued by a de-duplicated BFS to depth 3 / 4 and by an undeduplicated tree to depth 3 / 4 (the two at different start times); every evaluate (also those inside the prefixes) compares fact sets and expiries per component with the (max,min) reference fixpoint over the alive annotated facts and the fact sets with the real naive_sds_plus and with the RSP engine's read path of the maintained state, sds_with_expiry_to_external(result, all_component_iris(sds)); an empty static graph is declared without triples when alpha1=2 and not declared at all when alpha1=3 (what the engine's build_cross_window_sds does); a fact filed under a component other than the one whose IRI + local name spells its predicate is a violation (per-component clause). evaluations = evaluate transitions executed on the real code (all searches + prefixes); states/transitions = the BFSs (1)+(3) (each BFS has its own seen set); non-trivial = BFS evaluate whose carried map has a fact still alive and whose expected result has a derived (non-seed) fact; distinct = distinct (configuration, relative pre-state); outcomes = distinct (configuration, relative result)",
+    rule: "per configuration (rule set in {copy, join, chain, trans, transdag, static, xwin, wrec, tri [3-premise rules over w1,w2,w1 and w1,w2,static], twohead [one rule with two conclusions, one of them INTO window w2, plus a join reading it], const [constants in premise and conclusion, a fully ground premise], loop [repeated variable w1:p(x,x), 2-cycle join], late_consumer_first / late_producers_first [two derivations of unequal length for one fact plus a consumer of it, in both rule listing orders]} x {IRIs prefix-free, alpha1,alpha2 in {2,3}, static graph empty/filled, eviction exact/one tick late: 16} + {prefix-free, alpha (1,4)/(4,1), static filled, eviction exact/late: 4} + {prefix-NESTED component IRIs http://w/ http://w/x/ http://w/sg/ http://w/x/out/, alpha (2,3)/(3,2), static filled, eviction exact/late: 4} = 14 x 24 = 336 configurations, each an independent search) histories of ops arrive(w,t) [2 windows x 3 triples (cycle a-p-b b-p-c c-p-a; a-p-b b-p-c a-p-c for transdag/wrec; a-p-a a-p-b b-p-a for twohead/loop); a listing keeps the latest arrival time], tick [now+=1, listings with time+alpha(+1 if late)<=now dropped], evaluate [real incremental_sds_plus with the SdsWithExpiry carried from the previous evaluate; only at a strictly later time than the previous evaluation], flush [max(alpha)+1(+1 if late) ticks; de-duplicated searches only]: (1) BFS from the empty history at start time 0 up to depth 6 (quick) / 9 (thorough; 8 for the 160 configurations that are not among the first 8 rule sets x prefix-free x alpha in {2,3}), states de-duplicated on the full state relative to now (listing ages, complete carried map with expiry-now, evaluate-enabled); (2) plain tree search without any de-duplication from the empty history to depth 4 / 6 (5 for those 160); (3) 8 seeded prefixes per configuration (1-3 evaluations each: carried-alive, evaluated renewal, full windows, renewal then total expiry, staggered ages, three incremental evaluations, re-derivation after total expiry, partial renewal) executed at start time 1000 or 2^40 and continued by a de-duplicated BFS to depth 3 / 4 and by an undeduplicated tree to depth 3 / 4 (the two at different start times); every evaluate (also those inside the prefixes) compares fact sets and expiries per component with the (max,min) reference fixpoint over the alive annotated facts and the fact sets with the real naive_sds_plus and with the RSP engine's read path of the maintained state, sds_with_expiry_to_external(result, all_component_iris(sds)); an empty static graph is declared without triples when alpha1=2 and not declared at all when alpha1=3 (what the engine's build_cross_window_sds does); a fact filed under a component other than the one whose IRI + local name spells its predicate is a violation (per-component clause). evaluations = evaluate transitions executed on the real code (all searches + prefixes); states/transitions = the BFSs (1)+(3) (each BFS has its own seen set); non-trivial = BFS evaluate whose carried map has a fact still alive and whose expected result has a derived (non-seed) fact; distinct = distinct (configuration, relative pre-state); outcomes = distinct (configuration, relative result)",
     assumptions: &[
         "universe: two windows and one static graph (triple b-k-c, for rule set tri b-k-c and c-k-a, or empty) and one output component; component IRIs either http://w1/ http://w2/ http://sg/ http://out/ or the prefix-nested http://w/ http://w/x/ http://w/sg/ http://w/x/out/; every component IRI ends in '/', local predicate names contain no '/', so an annotated predicate has exactly one reading (component, local name); entities a b c, arrival time = current time, start time 0, 1000 or 2^40; alpha in {1,2,3,4}",
         "alive <=> event_time + alpha > now (translate_sds_to_datalog); a window may keep an expired listing for one more tick (eviction=late) — the statement speaks about alive facts only, so such a listing must not contribute",
@@ -136,7 +136,7 @@ type StaticTriples = &'static [(&'static str, &'static str, &'static str)];
 const ST_ONE: StaticTriples = &[("b", "k", "c")];
 const ST_TWO: StaticTriples = &[("b", "k", "c"), ("c", "k", "a")];
 /// local predicate names: no '/', none equal to an entity name
-const LOCALS: [&str; 16] = ["p", "k", "cp", "j", "q", "r", "t", "s", "st", "j3", "j3s", "c1", "d1", "l1", "m1", "n1"];
+const LOCALS: [&str; 19] = ["p", "k", "cp", "j", "q", "r", "t", "s", "st", "j3", "j3s", "c1", "d1", "l1", "m1", "n1", "e1", "f1", "g1"];
 
 /// atom: component index, local predicate name, subject term, object term
 /// (a term that is an entity name a|b|c is a constant, anything else a variable)
@@ -301,6 +301,35 @@ const RULESETS: &[RuleSetDef] = &[
             RS { premise: &[A(W2, "p", "x", "y"), A(OUTC, "l1", "x", "x")], conclusion: &[A(OUTC, "n1", "x", "y")] },
         ],
         marks: &[("repeated_variable_derivation", &["l1", "n1"]), ("two_cycle_join_derivation", &["m1"])],
+    },
+    // two derivations of UNEQUAL length for one fact (e1 directly from w1, and from w2 through f1),
+    // with a consumer of that fact (g1) - in both listing orders: consumer FIRST (the consumer fires on
+    // e1 in the same round in which the longer derivation improves e1's expiry, i.e. while e1 is in the
+    // current delta, and must be re-triggered) and producers first. With alpha1 < alpha2 the longer
+    // path carries the later expiry.
+    RuleSetDef {
+        name: "late_consumer_first",
+        triples: CYCLE,
+        statics: ST_ONE,
+        rules: &[
+            RS { premise: &[A(OUTC, "e1", "x", "y")], conclusion: &[A(OUTC, "g1", "x", "y")] },
+            RS { premise: &[A(W1, "p", "x", "y")], conclusion: &[A(OUTC, "e1", "x", "y")] },
+            RS { premise: &[A(W2, "p", "x", "y")], conclusion: &[A(OUTC, "f1", "x", "y")] },
+            RS { premise: &[A(OUTC, "f1", "x", "y")], conclusion: &[A(OUTC, "e1", "x", "y")] },
+        ],
+        marks: &[("unequal_length_derivations_consumer_first", &["g1"])],
+    },
+    RuleSetDef {
+        name: "late_producers_first",
+        triples: CYCLE,
+        statics: ST_ONE,
+        rules: &[
+            RS { premise: &[A(OUTC, "f1", "x", "y")], conclusion: &[A(OUTC, "e1", "x", "y")] },
+            RS { premise: &[A(W2, "p", "x", "y")], conclusion: &[A(OUTC, "f1", "x", "y")] },
+            RS { premise: &[A(W1, "p", "x", "y")], conclusion: &[A(OUTC, "e1", "x", "y")] },
+            RS { premise: &[A(OUTC, "e1", "x", "y")], conclusion: &[A(OUTC, "g1", "x", "y")] },
+        ],
+        marks: &[("unequal_length_derivations_producers_first", &["g1"])],
     },
 ];
 
